@@ -21,6 +21,7 @@ ASSUMPTIONS = []
 
 U = [{"a": i} for i in range(4)]
 CACHE = "/p/.signac/statepoint_cache.json.gz"
+PREFIXES = sorted({refs.canon_id(sp)[0] for sp in U})
 
 
 def _write_cache(fs, entries):
@@ -39,6 +40,12 @@ def _observe(pr):
     for i in out["ids"]:
         out["sp" + i] = pr.open_job(id=i).statepoint()
         out["csp" + i] = dict(pr.open_job(id=i).cached_statepoint)
+    # abbreviated ids (the first character: {a:0} and {a:2} share theirs) resolve against the WORKSPACE
+    for c in PREFIXES:
+        try:
+            out["pre" + c] = pr.open_job(id=c).id
+        except LookupError as e:
+            out["pre" + c] = "KeyError" if isinstance(e, KeyError) else "LookupError"
     return out
 
 
@@ -51,6 +58,9 @@ def _expected(present):
     for sp in sps:
         out["sp" + refs.canon_id(sp)] = sp
         out["csp" + refs.canon_id(sp)] = sp
+    for c in PREFIXES:
+        m = [i for i in ids if i.startswith(c)]
+        out["pre" + c] = m[0] if len(m) == 1 else ("LookupError" if m else "KeyError")
     return out
 
 
@@ -66,14 +76,23 @@ def _check_all(fs, pr, present, problems, tag):
     got = _observe(pr)
     if got != want:
         problems.append((tag, "running session", {k: (got.get(k), want.get(k)) for k in set(got) | set(want) if got.get(k) != want.get(k)}))
-    if isinstance(fs, memfs.RealFS):
-        return
+    real = isinstance(fs, memfs.RealFS)
     for label, delete in (("fresh session", False), ("fresh session, cache file deleted", True)):
-        f2 = _clone_fs(fs)
+        if real and delete:
+            continue           # replay on the real file system: the observations are read-only, the deleted-file variant needs a copy
+        f2 = fs if real else _clone_fs(fs)
         if delete:
             f2.delete_raw(CACHE)
         memfs.install(f2)
         try:
+            # a session whose very FIRST action is the abbreviated look-up (nothing registered in memory yet)
+            for c in PREFIXES:
+                try:
+                    g = memfs.mkproject(f2).open_job(id=c).id
+                except LookupError as e:
+                    g = "KeyError" if isinstance(e, KeyError) else "LookupError"
+                if g != want["pre" + c]:
+                    problems.append((tag, label, "abbreviated id as the first action of the session", c, g, want["pre" + c]))
             g2 = _observe(memfs.mkproject(f2))
         finally:
             memfs.install(fs)
@@ -86,7 +105,7 @@ def stale_after_restart(hist):
     return True
 
 
-def _hist_case(init_mask, cache_state, ops):
+def _hist_case(init_mask, cache_state, ops, peek=False):
     from vflib.hutil import reset_buffers
     fs = ws.new_fs()
     memfs.install(fs)
@@ -108,6 +127,8 @@ def _hist_case(init_mask, cache_state, ops):
                 ent = [e for e in ent if e != U[min(present)]]
             _write_cache(fs, ent)
         pr = memfs.mkproject(fs)   # the history starts in a fresh session
+        if peek:
+            _check_all(fs, pr, present, problems, "initial")     # the session has looked at the project (and its cache file) before the history starts
         handles = {}
         for n, (op, arg) in enumerate(ops):
             if op == 0:      # init job arg
@@ -161,16 +182,18 @@ def _dec(x):
     return x - 12 + 3, 0
 
 
-def h_hist(init_mask: int, cache_state: int, o0: int, o1: int, o2: int, o3: int, n: int):
+def h_hist(init_mask: int, cache_state: int, o0: int, o1: int, o2: int, o3: int, n: int, peek: bool):
     assert 0 <= init_mask < 16 and 0 <= cache_state <= 4 and 0 <= o0 < 15 and 0 <= o1 < 15 and 0 <= o2 < 15 and 0 <= o3 < 15 and 1 <= n <= 4 and part_ok(o0)
     assert (n >= 2 or o1 == 0) and (n >= 3 or o2 == 0) and (n >= 4 or o3 == 0)
     assert n <= (2 if tier() == "quick" else 3) or (tier() != "quick" and init_mask == 5 and cache_state == 4)
+    assert not peek or (cache_state in (1, 4) and init_mask in (1, 5))
     assert init_mask in (0, 1, 5, 6, 15)      # representative initial subsets: none, one, two non-adjacent, two adjacent, all
     fresh_path()
     init_mask, cache_state, n = ci(init_mask, 0, 15), ci(cache_state, 0, 4), ci(n, 1, 4)
     ops = [_dec(ci(o, 0, 14)) for o in (o0, o1, o2, o3)][:n]
+    peek = cb(peek)
     with nt():
-        r = _hist_case(init_mask, cache_state, ops)
+        r = _hist_case(init_mask, cache_state, ops, peek)
     reached()
     assert r[0]
 
